@@ -5,6 +5,7 @@ from vfw.sym import SV, SB, ctx, to_z3, real
 from vfw.engine import Contract
 from vfw.models import frames, kernels, npm
 from . import common
+from .common import zr
 from .c18 import SubMotl, FeatureKeys
 
 XYZ = ("x", "y", "z")
@@ -251,7 +252,183 @@ def lemmas(ck):
     ck.lemma("non_negative_roots_of_equal_squares_are_equal", [x >= 0, y >= 0, x * x == s, y * y == s], x == y, tactics=())
 
 
-CONTRACTS = [CleanByDistance, PointPairwiseDist]
+# ---------------------------------------------------------------------------------------------------------------------------------
+# tmana.scores_extract_particles is verified block-wise: the statements of one contiguous block are extracted mechanically from the function's
+# AST on every run (Interp.block_function) and executed under the block's requires; everything outside the block is dropped from that
+# obligation set and covered by the other block / the bounded run.
+
+
+class _Kept(frames._Generic):
+    """filtered_coords after the suppression loop: a list of (coord, score) pairs, one per kept candidate.  zip(*list) yields the tuple of
+    coordinates and the tuple of scores; np.array of them is an (n,3) integer array and an (n,) vector over the kept candidates"""
+
+    def __init__(self):
+        self.space = frames.Space(tag="kept")
+        self.c = [SV(z3.Int(f"peak_{a}")) for a in XYZ]   # voxel index of the generic kept candidate
+        self.s = SV(z3.Real("peak_score"))
+
+    def __iter__(self):
+        # `zip(*filtered_coords)`: the star expansion hands the list's elements to zip; modelled by one marker standing for all of them
+        yield _AllPairs(self)
+
+
+class _AllPairs:
+    def __init__(self, kept):
+        self.kept = kept
+
+
+class _ZipPart:
+    def __init__(self, kept, what):
+        self.kept, self.what = kept, what
+
+
+class _AngList:
+    """anglist = ioutils.rot_angles_load(...): (n_angles, 3) array of (phi, theta, psi); anglist[idx, k] for a per-row index vector"""
+    ANG = z3.Function("angle_list", z3.IntSort(), z3.IntSort(), z3.RealSort())
+
+    def __init__(self):
+        self.n = z3.Int("n_angles")
+        self.lookups = []
+
+    def __getitem__(self, k):
+        idx, col = k
+        if not (isinstance(idx, frames.GVec) and isinstance(col, int)):
+            raise sym.Unsupported("anglist lookup form")
+        it = to_z3(idx.val)
+        ctx().oblige("safe.index-in-range", z3.Implies(sym.to_bool(idx.present), z3.And(it >= 0, it < self.n)), kind="safe", detail="row of the angle list")
+        self.lookups.append((idx, col))
+        return frames.GVec(SV(_AngList.ANG(it, z3.IntVal(col))), idx.space, idx.present)
+
+
+class TmanaBookkeeping(Contract):
+    """scores_extract_particles, block from `filtered_coords, filtered_scores = zip(*filtered_coords)` to `motl.fill(...)`: every kept
+    candidate becomes one particle carrying its score, its voxel index + 1 as position and the Euler angles (phi, theta, psi) of the row of the
+    angle list that its angle-map entry (minus the numbering base) points to, plus the requested tomogram / object numbers and ids 1..n"""
+    prop = "C07"
+    module = "tmana"
+    qual = "scores_extract_particles"
+    configs = [{"numbering": 0}, {"numbering": 1}]
+
+    def cfg_name(self, cfg):
+        return f"block=bookkeeping,angles_numbering={cfg['numbering']}"
+
+    def bind(self, cx, cfg):
+        from vfw.interp import Interp, BUILTINS
+        from vfw.models import voxels
+        kept = _Kept()
+        ms = [SV(z3.Int(n)) for n in ("AX", "AY", "AZ")]
+        for s_, c_ in zip(ms, kept.c):
+            cx.assume(z3.And(s_.t >= 1, c_.t >= 0, c_.t < s_.t))  # requires: the kept candidates are voxel indices of the maps (same shape for scores and angles)
+        amap = voxels.input_array("angles_map", list(ms))
+        ang = _AngList()
+        base = cfg["numbering"]
+        i0, i1, i2 = z3.Ints("q0 q1 q2")
+        # requires: every entry of the angle map, minus the numbering base, is a row of the angle list
+        cx.assume(z3.ForAll([i0, i1, i2], z3.Implies(z3.And(i0 >= 0, i0 < ms[0].t, i1 >= 0, i1 < ms[1].t, i2 >= 0, i2 < ms[2].t),
+                                                       z3.And(z3.ToInt(amap.fn(i0, i1, i2)) - base >= 0, z3.ToInt(amap.fn(i0, i1, i2)) - base < ang.n, amap.fn(i0, i1, i2) >= 0))))
+        rec = {}
+
+        class DB:
+            def __init__(self, eps=None, min_samples=None, **k):
+                rec["dbscan"] = (eps, min_samples)
+
+            def fit_predict(self, X):
+                """assumed sklearn contract for min_samples = 1: every point belongs to a cluster, labels are >= 0"""
+                rec["clustered"] = X
+                lab = frames.GVec(SV(z3.Int("cluster_label")), X.space, X.present)
+                ctx().assume(z3.Int("cluster_label") >= 0)
+                return lab
+
+        class MotlStub:
+            def fill(self, d):
+                rec["fill"] = d
+
+        class Cryomotl:
+            @staticmethod
+            def Motl(*a, **k):
+                m = MotlStub()
+                rec["motl"] = m
+                return m
+
+        def zip_(*a):
+            if len(a) == 1 and isinstance(a[0], _AllPairs):
+                return [_ZipPart(a[0].kept, "coords"), _ZipPart(a[0].kept, "scores")]
+            return zip(*a)
+
+        g = common.base_globals()
+        base_np = g["np"]
+
+        class NPB:
+            def __getattr__(self, k):
+                return getattr(base_np, k)
+
+            @staticmethod
+            def array(x, *a, **k):
+                if isinstance(x, _ZipPart):
+                    kk = x.kept
+                    return frames.RowArr(list(kk.c), kk.space) if x.what == "coords" else frames.GVec(kk.s, kk.space)
+                return base_np.array(x, *a, **k)
+
+            @staticmethod
+            def zeros(n, dtype=None, **k):
+                if dtype is bool or dtype is BUILTINS["bool"]:
+                    sp = frames.space_for_count(n)
+                    return frames.GVec(False, sp)
+                return base_np.zeros(n, dtype=dtype, **k)
+
+            @staticmethod
+            def sum(x, *a, **k):
+                if isinstance(x, frames.GVec):
+                    return SV(ctx().fresh("count", "Int"))
+                return base_np.sum(x, *a, **k)
+        g.update({"np": NPB(), "DBSCAN": DB, "cryomotl": Cryomotl, "zip": zip_})
+        it = Interp("tmana", g)
+        f = it.block_function("scores_extract_particles", lambda s: s.startswith("filtered_coords, filtered_scores = zip("), lambda s: s.startswith("motl.fill("),
+                              ["filtered_coords", "particle_diameter", "cluster_size", "n_particles", "angles_map", "angles_numbering", "anglist", "symmetry", "tomo_id", "object_id"], ["motl"])
+        diam = SV(z3.Real("particle_diameter"))
+        cx.assume(diam.t > 0)
+        tomo, obj = SV(z3.Real("tomo_id_arg")), SV(z3.Real("object_id_arg"))
+
+        def thunk():
+            rec.clear()
+            f(kept, diam, None, None, amap, base, ang, 1, tomo, obj)
+            return dict(rec)
+        return thunk, {"kept": kept, "amap": amap, "ang": ang, "base": base, "tomo": tomo, "obj": obj, "diam": diam, "lines": it.block_lines}
+
+    def post(self, cx, cfg, inp, res):
+        kept, amap, base = inp["kept"], inp["amap"], inp["base"]
+        d = res.get("fill")
+        cl = [("one_particle_list_filled_once", z3.BoolVal(isinstance(d, dict) and res.get("motl") is not None))]
+        if not isinstance(d, dict):
+            return cl
+        need = ["x", "y", "z", "score", "phi", "theta", "psi", "tomo_id", "object_id", "subtomo_id", "class"]
+        cl.append(("fields_filled", z3.BoolVal(all(k in d for k in need))))
+        if not all(k in d for k in need):
+            return cl
+        vec = lambda k: d[k] if isinstance(d[k], frames.GVec) else None
+        ok = all(vec(k) is not None for k in ("x", "y", "z", "score", "phi", "theta", "psi", "subtomo_id"))
+        cl.append(("per_peak_fields_are_vectors_over_the_kept_candidates", z3.BoolVal(bool(ok))))
+        if not ok:
+            return cl
+        pres = lambda k: sym.to_bool(d[k].present)
+        cl.append(("every_kept_candidate_becomes_a_particle", z3.And(*[pres(k) for k in ("x", "y", "z", "score", "phi", "theta", "psi")]), ()))
+        for a, k in enumerate(XYZ):
+            cl.append((f"position_{k}_is_voxel_index_plus_one", zr(d[k].val) == z3.ToReal(kept.c[a].t) + 1, ()))
+        cl.append(("score_is_the_candidates_score", zr(d["score"].val) == kept.s.t, ()))
+        row = z3.ToInt(amap.fn(*[c.t for c in kept.c])) - base
+        for col, k in enumerate(("phi", "theta", "psi")):
+            cl.append((f"{k}_is_column_{col}_of_the_angle_list_row_the_angle_map_points_to", zr(d[k].val) == _AngList.ANG(row, z3.IntVal(col)), ()))
+        cl.append(("tomogram_and_object_numbers_as_requested", z3.BoolVal(d["tomo_id"] is inp["tomo"] and d["object_id"] is inp["obj"] and d["class"] == 1)))
+        cl.append(("subtomogram_numbers_are_position_plus_one", zr(d["subtomo_id"].val) == z3.ToReal(frames.RowPos(d["subtomo_id"].space).val.t) + 1, ()))
+        cl.append(("clustering_with_half_the_diameter_and_single_point_clusters", z3.BoolVal(res.get("dbscan") is not None and res["dbscan"][1] == 1 and z3.is_true(z3.simplify(zr(res["dbscan"][0]) == inp["diam"].t / 2)))))
+        return cl
+
+    def replay(self, clause, model, cfg):
+        from rtc import c07 as r
+        return r.replay_small("tmana")
+
+
+CONTRACTS = [CleanByDistance, PointPairwiseDist, TmanaBookkeeping]
 LEVEL = "other"
 EXPLANATION = ("Motl.clean_by_distance on the real AST: the loop over groups as an arbitrary iteration, the greedy loop over the argsort order by a quantified inductive invariant (visited kept particles have cleared their "
                "neighbourhood; every removed particle has a kept, earlier-ranked 'killer' within d - ghost function), exit facts give separation, domination with equal-or-better score and group isolation; "
